@@ -2,6 +2,7 @@ SPECIFICATION PSpec
 CONSTANTS
   MaxN = 6
   MaxDepth = 4
+  Gap = 256
 INVARIANT PValid
 INVARIANT Monotone
 PROPERTY KeepsLabels
